@@ -8,6 +8,6 @@ git -C /repo worktree add -q --detach $wt ${SEED_BASE:-HEAD} || exit 2
 if ! git -C $wt apply $sd/patch_$i.diff; then echo "PATCH DOES NOT APPLY"; git -C /repo worktree remove --force $wt; exit 3; fi
 ( cd $wt && PYTHONPATH=$wt timeout 600 /venv/bin/python $sd/demo_$i.py >/dev/null 2>&1; echo "demo with patch: exit $?" )
 for p in "$@"; do
-  VERIF_REPO=$wt ./check $p 2>&1 | grep -E "VIOLATION|^\[$p\]" | cut -c1-170 | awk 'NR<=2 || /^\[/'
+  VERIF_OUT=${SEED_OUT:-/root/seedout} VERIF_REPO=$wt ./check $p 2>&1 | grep -E "VIOLATION|^\[$p\]" | cut -c1-170 | awk 'NR<=2 || /^\[/'
 done
 git -C /repo worktree remove --force $wt
